@@ -17,9 +17,10 @@ Wn(n) == [k \in 1..n |-> W]
 Arity == << <<0, 1>>, <<1, 1>>, <<2, 1>>, <<1, 2>>, <<1, 2>>, <<2, 2>>, <<1, 0>>, <<2, 1>>,
             <<3, 3>>, <<0, 0>>, <<0, 2>>, <<2, 3>>, <<0, 1>>, <<1, 1>>, <<1, 2>> >>
 NONE == 0 - 1000                                \* code of the opaque value
+LISTV == 0 - 1001                               \* code of a second opaque value that is itself a list ([1, 2]): one value on one wire
 ERR  == 0 - 2000                                \* the evaluation raised
 Arithmetic == {2, 3, 4, 8, 9, 12}
-Opaque(a) == \E k \in 1..Len(a) : a[k] = NONE
+Opaque(a) == \E k \in 1..Len(a) : a[k] \in {NONE, LISTV}
 Min3(a, b, c) == IF a <= b /\ a <= c THEN a ELSE IF b <= c THEN b ELSE c
 Max3(a, b, c) == IF a >= b /\ a >= c THEN a ELSE IF b >= c THEN b ELSE c
 Fun(id, a) ==
